@@ -750,6 +750,9 @@ func runC11(c *engine.Ctx) {
 
 	// ---- R16 ----
 	checkAcceptRetry(c, "R16")
+
+	// ---- R17 a CONNECT user is never left open without a peer (shared with C02.R6) ----
+	checkConnectHandler(c, "R17")
 }
 
 // checkLastLeaveWakes (C11.R12, shared with C10.R17): the last member leaving a tcp / tcpmux group closes the group's
